@@ -1,12 +1,23 @@
 //! Emulated CAN bus for the `verif` seam (glonax-runtime/src/can.rs `bind_verif`): a hub over
 //! Unix datagram sockets. Every endpoint of an interface binds `<dir>/<iface>.<pid>.<n>.ep` and is
-//! connected to `<dir>/<iface>.hub`. The hub forwards each 16-byte `can_frame` to every OTHER
-//! endpoint (Linux loopback semantics: a socket does not hear itself, siblings do), records it,
-//! and can inject arbitrary raw frames.
+//! connected to `<dir>/<iface>.hub`. A helper thread owns the hub socket: it forwards each 16-byte
+//! `can_frame` to every OTHER endpoint (Linux loopback semantics: a socket does not hear itself,
+//! siblings do) and reports it; `pump()` synchronises with that thread (a 1-byte marker datagram
+//! travels through the same FIFO queue) and returns the frames seen since the last call.
 use std::os::unix::net::UnixDatagram;
 use std::path::PathBuf;
+use std::sync::mpsc;
 
-pub struct Bus { pub dir: PathBuf, pub iface: String, hub: UnixDatagram, pub log: Vec<(String, [u8; 16])> }
+enum Msg { Frame(String, [u8; 16]), Sync }
+
+pub struct Bus {
+    pub dir: PathBuf,
+    pub iface: String,
+    ctl: UnixDatagram,
+    inj: UnixDatagram,
+    rx: mpsc::Receiver<Msg>,
+    pub log: Vec<(String, [u8; 16])>,
+}
 
 pub fn bus_dir() -> PathBuf {
     let d = std::env::temp_dir().join(format!("vbus-{}", std::process::id()));
@@ -15,10 +26,21 @@ pub fn bus_dir() -> PathBuf {
     d
 }
 
+fn endpoints_of(dir: &PathBuf, iface: &str) -> Vec<PathBuf> {
+    let mut v = Vec::new();
+    if let Ok(rd) = std::fs::read_dir(dir) {
+        for e in rd.flatten() {
+            let n = e.file_name().to_string_lossy().to_string();
+            if n.starts_with(&format!("{}.", iface)) && n.ends_with(".ep") { v.push(e.path()); }
+        }
+    }
+    v.sort();
+    v
+}
+
 impl Bus {
     pub fn new(iface: &str) -> Bus {
         let dir = bus_dir();
-        // forget endpoints of earlier cases
         if let Ok(rd) = std::fs::read_dir(&dir) {
             for e in rd.flatten() {
                 let n = e.file_name().to_string_lossy().to_string();
@@ -26,48 +48,72 @@ impl Bus {
             }
         }
         let hp = dir.join(format!("{}.hub", iface));
-        let _ = std::fs::remove_file(&hp);
         let hub = UnixDatagram::bind(&hp).unwrap();
-        hub.set_nonblocking(true).unwrap();
-        Bus { dir, iface: iface.to_string(), hub, log: Vec::new() }
-    }
-    pub fn endpoints(&self) -> Vec<PathBuf> {
-        let mut v = Vec::new();
-        if let Ok(rd) = std::fs::read_dir(&self.dir) {
-            for e in rd.flatten() {
-                let n = e.file_name().to_string_lossy().to_string();
-                if n.starts_with(&format!("{}.", self.iface)) && n.ends_with(".ep") { v.push(e.path()); }
+        let (tx, rx) = mpsc::channel();
+        let (d2, i2) = (dir.clone(), iface.to_string());
+        std::thread::spawn(move || {
+            let mut buf = [0u8; 64];
+            loop {
+                let Ok((n, addr)) = hub.recv_from(&mut buf) else { break };
+                if n == 16 {
+                    let mut raw = [0u8; 16];
+                    raw.copy_from_slice(&buf[..16]);
+                    let from = addr.as_pathname().map(|p| p.to_string_lossy().to_string()).unwrap_or_default();
+                    for ep in endpoints_of(&d2, &i2) {
+                        if ep.to_string_lossy() != from { let _ = hub.send_to(&raw, &ep); }
+                    }
+                    if tx.send(Msg::Frame(from, raw)).is_err() { break; }
+                } else if n == 17 {
+                    // injection request from the harness: a frame from "somewhere else on the bus",
+                    // delivered (from the hub, the endpoints' connected peer) to every endpoint
+                    let mut raw = [0u8; 16];
+                    raw.copy_from_slice(&buf[1..17]);
+                    for ep in endpoints_of(&d2, &i2) { let _ = hub.send_to(&raw, &ep); }
+                } else if n == 1 {
+                    if tx.send(Msg::Sync).is_err() { break; }
+                } else if n == 2 {
+                    break;
+                }
             }
-        }
-        v.sort(); v
+        });
+        let ctl = UnixDatagram::unbound().unwrap();
+        ctl.connect(&hp).unwrap();
+        let inj = UnixDatagram::unbound().unwrap();
+        Bus { dir, iface: iface.to_string(), ctl, inj, rx, log: Vec::new() }
     }
-    /// move every pending frame: record it and forward it to all other endpoints; returns them
+
+    pub fn endpoints(&self) -> Vec<PathBuf> { endpoints_of(&self.dir, &self.iface) }
+
+    /// frames put on the bus since the last call (all of them have been forwarded to the siblings)
     pub fn pump(&mut self) -> Vec<[u8; 16]> {
         let mut out = Vec::new();
-        let mut buf = [0u8; 64];
-        loop {
-            match self.hub.recv_from(&mut buf) {
-                Ok((n, addr)) => {
-                    if n != 16 { continue; }
-                    let mut raw = [0u8; 16]; raw.copy_from_slice(&buf[..16]);
-                    let from = addr.as_pathname().map(|p| p.to_string_lossy().to_string()).unwrap_or_default();
-                    for ep in self.endpoints() {
-                        if ep.to_string_lossy() != from { let _ = self.hub.send_to(&raw, &ep); }
-                    }
-                    self.log.push((from, raw)); out.push(raw);
-                }
-                Err(_) => break,
+        if self.ctl.send(&[0u8]).is_err() { return out; }
+        while let Ok(m) = self.rx.recv_timeout(std::time::Duration::from_secs(5)) {
+            match m {
+                Msg::Sync => break,
+                Msg::Frame(from, raw) => { self.log.push((from, raw)); out.push(raw); }
             }
         }
         out
     }
+
     /// a frame from "somewhere else on the bus": delivered to every endpoint
-    pub fn inject(&self, raw: &[u8; 16]) { for ep in self.endpoints() { let _ = self.hub.send_to(raw, &ep); } }
+    pub fn inject(&self, raw: &[u8; 16]) {
+        let mut m = [1u8; 17];
+        m[1..].copy_from_slice(raw);
+        let _ = self.ctl.send(&m);
+        let _ = &self.inj;
+    }
+}
+
+impl Drop for Bus {
+    fn drop(&mut self) { let _ = self.ctl.send(&[0u8, 0u8]); }
 }
 
 pub fn raw_frame(can_id: u32, dlc: u8, data: &[u8]) -> [u8; 16] {
     let mut r = [0u8; 16];
-    r[..4].copy_from_slice(&can_id.to_le_bytes()); r[4] = dlc;
+    r[..4].copy_from_slice(&can_id.to_le_bytes());
+    r[4] = dlc;
     for (i, b) in data.iter().take(8).enumerate() { r[8 + i] = *b; }
     r
 }
